@@ -410,6 +410,7 @@ def _run_optim(case, seed, td):
             bad("evaluation-incomplete", f"an evaluation logged {rec}: not one value set per declared key")
             break
         evals.append(v)
+    evals.sort()            # islands evolve in concurrent threads: make the order (and so the reported case) deterministic
     E = np.array(evals, dtype=float).reshape(len(evals), ncomp)
     if len(evals) < isl * 8:
         bad("too-few-evaluations", f"only {len(evals)} pipeline evaluations were logged for {isl} island(s) of 8")
